@@ -1,0 +1,54 @@
+//go:build verif
+
+package board
+
+// This file is only compiled with the `verif` build tag. It gives external
+// verification harnesses read-only access to the unexported parts of Board.
+
+// VerifSnapshot is a deep copy of every attribute of a Board.
+type VerifSnapshot struct {
+	SquaresToPiece [64]byte
+	Pieces         [7]uint64
+	Colors         [2]uint64
+	Hashes         []uint64
+	FullMoves      int
+	STM            byte
+	EnPassant      int8
+	Castles        byte
+	FiftyCnt       int8
+}
+
+// VerifSnapshot returns a deep copy of b including the hash history.
+func (b *Board) VerifSnapshot() VerifSnapshot {
+	s := VerifSnapshot{
+		FullMoves: b.fullMoves,
+		STM:       byte(b.STM),
+		EnPassant: int8(b.EnPassant),
+		Castles:   byte(b.Castles),
+		FiftyCnt:  int8(b.FiftyCnt),
+		Hashes:    make([]uint64, len(b.hashes)),
+	}
+	for i, p := range b.SquaresToPiece {
+		s.SquaresToPiece[i] = byte(p)
+	}
+	for i, p := range b.Pieces {
+		s.Pieces[i] = uint64(p)
+	}
+	for i, c := range b.Colors {
+		s.Colors[i] = uint64(c)
+	}
+	for i, h := range b.hashes {
+		s.Hashes[i] = uint64(h)
+	}
+	return s
+}
+
+// VerifCalcHash is the Zobrist hash of b computed from scratch.
+func (b *Board) VerifCalcHash() Hash { return b.calculateHash() }
+
+// VerifFullMoves is the full move counter of b.
+func (b *Board) VerifFullMoves() int { return b.fullMoves }
+
+// VerifSetFullMoves sets the full move counter of b. It is meant for boards
+// assembled field by field by a harness rather than parsed from FEN.
+func (b *Board) VerifSetFullMoves(n int) { b.fullMoves = n }
